@@ -79,8 +79,8 @@ def run(tier):
         sizes = readtrace.read_sizes(rnd, total, st)
         sink = os.path.join(wd, cid + ".out")
         scr = readtrace.read_script(cid, path, sink, sizes)
-        if "+mid:" in name and len(sizes) < 2:
-            sizes = [max(1, total // 3)] + sizes
+        if "+mid:" in name and total > 1:
+            sizes = [max(1, total // 3)] + sizes           # the first read stops inside the data
         if (i % 3 == 1 or "+mid:" in name) and len(sizes) > 1 and rf.content is not None and rf.valid_strict:
             # a validation call between the first read and the rest, on the same context: what the later reads deliver must
             # still be the content, in order and once (state carried across public calls).  Only on VALID files: their content is
